@@ -172,7 +172,7 @@ class LoopMixin:
             actuals[k.arg] = k.value
         out = []
         for m in fs.modifies:
-            if m in ("fresh", "alloc", "*"):
+            if m in ("fresh", "alloc", "*", "fresh1"):
                 continue
             node = ast.parse(m, mode="eval").body
             base = node.value
@@ -512,13 +512,23 @@ class LoopMixin:
         return SV(CONST, None, None, extra=("range", lo, hi))
 
     def bi_reversed(self, args, kwargs, st, node):
-        raise EngineError("reversed is not modelled")
+        """reversed(xs) of a list: a fresh sequence R with |R| = |xs| and R[i] = xs[|xs|-1-i]."""
+        (v,) = args
+        v = self.reify(v) if isinstance(v.t, TConst) else v
+        if not isinstance(v.t, TList) or v.t.elem is None:
+            raise EngineError("reversed of a non-list")
+        r = sym.fresh(v.t, "rev")
+        n = z3.Length(v.z)
+        st.assume(z3.Length(r.z) == n)
+        i = z3.Int(sym.fresh_name("ri"))
+        st.assume(z3.ForAll([i], z3.Implies(z3.And(i >= 0, i < n), r.z[i] == v.z[n - 1 - i])))
+        return r
 
     # ------------------------------------------------------------------
     # list mutation through method calls on an lvalue
     def call_special(self, fv, e: ast.Call, st: State):
         f = e.func
-        if not (isinstance(f, ast.Attribute) and f.attr in ("append", "extend", "insert", "pop")):
+        if not (isinstance(f, ast.Attribute) and f.attr in ("append", "extend", "insert", "pop", "clear", "__setitem__")):
             return None
         if not (isinstance(fv.extra, tuple) and fv.extra[0] == "bmethod"):
             return None
@@ -542,15 +552,39 @@ class LoopMixin:
                 if not isinstance(other.t, TList):
                     raise EngineError("extend with non-list")
                 new = self.list_concat(cur if cur.t.elem is not None else None, other)
+            elif f.attr == "clear":
+                new = SV(cur.t, z3.Empty(sym.sort_of(cur.t))) if cur.t.elem is not None else cur
+            elif f.attr == "__setitem__":
+                idx, item = vals
+                if cur.t.elem is None:
+                    self.partial(s2, z3.BoolVal(False), "IndexError", e)
+                    raise EngineError("__setitem__ on untyped empty list")
+                n = z3.Length(cur.z)
+                self.partial(s2, z3.And(idx.z >= -n, idx.z < n), "IndexError", e)
+                k = self.norm_index(idx.z, n, s2)
+                item = sym.coerce(self.reify(item), cur.t.elem)
+                new = SV(cur.t, z3.Concat(z3.SubSeq(cur.z, 0, k), z3.Unit(item.z), z3.SubSeq(cur.z, k + 1, n - k - 1)))
+                s2.assume(z3.Length(new.z) == n)
             elif f.attr == "insert":
                 idx, item = vals
-                if idx.const is None or idx.const.v != 0:
-                    raise EngineError("insert only modelled at index 0")
                 item = self.reify(item)
                 if cur.t.elem is None:
                     new = SV(TList(item.t), z3.Unit(item.z))
-                else:
+                elif idx.const is not None and idx.const.v == 0:
                     new = SV(cur.t, z3.Concat(z3.Unit(sym.coerce(item, cur.t.elem).z), cur.z))
+                else:
+                    # list.insert(i, x): i < 0 counts from the end; the position is clamped to [0, len]
+                    n = z3.Length(cur.z)
+                    i0 = z3.If(idx.z < 0, idx.z + n, idx.z)
+                    k = z3.If(i0 < 0, 0, z3.If(i0 > n, n, i0))
+                    itz = sym.coerce(item, cur.t.elem).z
+                    new = SV(cur.t, z3.Concat(z3.SubSeq(cur.z, 0, k), z3.Unit(itz), z3.SubSeq(cur.z, k, n - k)))
+                    s2.assume(z3.Length(new.z) == n + 1)
+                    s2.assume(z3.Implies(k == n, new.z == z3.Concat(cur.z, z3.Unit(itz))))
+                    # element-wise description of the result (lemma instances for nth over the three-part concatenation)
+                    j = z3.Int(sym.fresh_name("ij"))
+                    s2.assume(z3.ForAll([j], z3.Implies(z3.And(j >= 0, j <= n),
+                                                         new.z[j] == z3.If(j < k, cur.z[j], z3.If(j == k, itz, cur.z[j - 1])))))
             else:  # pop
                 if cur.t.elem is None:
                     self.partial(s2, z3.BoolVal(False), "IndexError", e)
@@ -568,6 +602,8 @@ class LoopMixin:
                 s2.assume(z3.Length(new.z) == n - 1)
                 if isinstance(cur.t.elem, sym.TStr):
                     ret = SV(cur.t.elem, ret.z)
+                if isinstance(cur.t.elem, (TRef, TOpt)):
+                    self.assume_wellformed(s2, ret)
             rs = self.assign(_as_store(lv), new, s2)
             for s3, oc in rs:
                 out.append((s3, oc.value if oc.kind == "raise" else ret))
